@@ -1456,7 +1456,8 @@ def parse_unittest(test):
     testId = test.id()
     if testId is None:
         return None, None, None
-    testClassName = get_test_class_name(test)
+    # A failing sub-test is reported under the test it belongs to.
+    testClassName = get_test_class_name(getattr(test, 'test_case', test))
     testSuite = testClassName
     testName = testId[len(testClassName) + 1:]
     return testSuite, testName, testClassName
